@@ -3,7 +3,7 @@ the host production's action (reference evaluator in inlined order)."""
 import copy
 import json
 
-from .. import core, gen, gmodel, pipeline
+from .. import core, gen, gen3, gmodel, pipeline
 from ..subject import CONFIGS
 
 ALL_TAGS = [c[0] for c in CONFIGS]
@@ -89,7 +89,7 @@ def run(tier, seed):
     nvar = {"quick": 2, "thorough": 4}[tier]
     gk = dict(fallible=0.35, sugar=0.12, nnt=(2, 5), modes=("user", "user", "user", "unit", "pick", "single"))
     subj, cases = pipeline.make_cases(
-        chk, rng, n_gram, lambda r: gen.gen_core(r, **gk), ALL_TAGS,
+        chk, rng, n_gram, lambda r: (gen3.add_inline_pair(r, gen.gen_core(r, **gk)) if r.random() < 0.5 else gen.gen_core(r, **gk)), ALL_TAGS,
         want=lambda g, cfg: len(gen.inlinable(g)) >= 1,
         variants_fn=lambda c: variants(vrng, c, nvar))
     irng = chk.rng("inputs")
